@@ -24,6 +24,7 @@ import (
 	"sync"
 	"time"
 
+	"github.com/IrineSistiana/mosdns/v5/pkg/verifhook"
 	"go.uber.org/zap"
 )
 
@@ -78,6 +79,7 @@ func (t *PipelineTransport) ExchangeContext(ctx context.Context, m []byte) (*[]b
 		if err != nil {
 			return nil, err
 		}
+		verifhook.PointArg("pipeline.reserved", t)
 		r, err := dc.ExchangeReserved(ctx, m)
 		if err != nil {
 			// Reused connection may not stable.
